@@ -218,6 +218,19 @@ impl<'a> SubDeviceRef<'a> {
     { unimplemented!() }
 }
 
+impl MainDevice {
+/*@fn file=src/maindevice.rs impl="impl<'sto> MainDevice<'sto>" name=single_pdu subst="&'sto self=>&self@@ReceivedPdu<'sto>=>ReceivedPdu@@frame.await?=>frame.wait().await?" props=C01,C11
+    requires
+        self.pdu_loop.area <= 0x7ff, data.packed().len() <= 0xffff,
+    ensures
+        // Ok(v) => ONE datagram with exactly this command and max(data length, override) data bytes was sent, and v is what came
+        // back for it: its data area and its working counter (which the callers of `common` then compare - C11)
+        r is Ok ==> exists|g: RxPdu| #[trigger] answered(command, g)
+            && g.data.len() == (if len_override is Some { max_nat(len_override->Some_0 as nat, data.packed().len()) } else { data.packed().len() })
+            && (r->Ok_0).data() == g.data && (r->Ok_0).wkc_v() == g.wkc,
+@*/
+}
+
 /// the fields of SubDeviceGroup that the cycle reads
 pub struct Grp<const MAX_PDI: usize> { pub read_pdi_len: usize, pub pdi_len: usize, pub start_address: u32, pub subdevices: Vec<SubDevice>, pub pdi: PdiLock<MAX_PDI>, pub dc_conf: HasDc }
 
